@@ -59,6 +59,7 @@ type Contract struct {
 	Loops    map[int]*LoopContract
 	Encoder  bool // all narrowing conversions are lossless obligations
 	NoPanic  bool
+	MayPanic bool // explicit panic(...) statements are the documented loud refusal
 	Bounded  int
 	File     string
 	Line     int
@@ -98,7 +99,7 @@ type ContractSet struct {
 	Assumes   []string // textual list of assumed contracts (for evidence)
 }
 
-var keywordRe = regexp.MustCompile(`^(func|assume|lemma|ghost|pred|spec|requires|ensures|modifies|panics_if|let|loop|invariant|decreases|exit_assert|props|encoder|nopanic|bounded|assert|opt)\b`)
+var keywordRe = regexp.MustCompile(`^(func|assume|lemma|ghost|pred|spec|requires|ensures|modifies|panics_if|let|loop|invariant|decreases|exit_assert|props|encoder|nopanic|may_panic|return_assert|bounded|assert|opt)\b`)
 
 // readContractFile extracts //@ lines and parses them.
 func (cs *ContractSet) readContractFile(path, pkgPath string) error {
@@ -210,7 +211,7 @@ func (cs *ContractSet) readContractFile(path, pkgPath string) error {
 					return err
 				}
 				cur.Ensures = append(cur.Ensures, c)
-			case "assert":
+			case "assert", "return_assert":
 				c, err := mk(rest)
 				if err != nil {
 					return err
@@ -251,6 +252,8 @@ func (cs *ContractSet) readContractFile(path, pkgPath string) error {
 				cur.Encoder = true
 			case "nopanic":
 				cur.NoPanic = true
+			case "may_panic":
+				cur.MayPanic = true
 			case "bounded":
 				n, _ := strconv.Atoi(strings.TrimPrefix(strings.TrimSpace(rest), "unroll="))
 				cur.Bounded = n
